@@ -95,9 +95,18 @@ def check_entry(sc):
         sc2["T"] = ["func" if sc["T"][0] == "array" else "array", sc["T"][1], sc["T"][2]]
         r3 = H.run(sc2, temperature_entry="setter")
         _compare(out, r1["model"], r3["model"], "break-point array vs equivalent function")
+    if sc.get("T_prior"):
+        # the same final schedule set after other schedules had been set on the same model
+        r4 = H.run(sc, temperature_entry="history")
+        what = "set after %s (%s)" % (" then ".join("%s via %s" % (sp[0], how) for how, sp in sc["T_prior"]), sc["T"][0])
+        _compare(out, r1["model"], r4["model"], "fresh model vs " + what)
+        iso4 = r4["model"].temperatureParameters._isIsothermal
+        if iso1 != iso4:
+            out.fail("isothermal_flag_differs", "the %s schedule is treated as isothermal=%r on a fresh model and isothermal=%r when %s" % (sc["T"][0], iso1, iso4, what))
+        out.label("after_prior_schedule")
     pd = r1["model"].pData
     out.label("T_" + sc["T"][0], sc["iterator"])
-    out.nt(sc["T"][0] != "const" and bool(np.any(pd.nucRate > 0)) and len(pd.time) > 10)
+    out.nt((sc["T"][0] != "const" or bool(sc.get("T_prior"))) and bool(np.any(pd.nucRate > 0)) and len(pd.time) > 10)
     return out
 
 
@@ -133,6 +142,15 @@ def _entry_scenario(draw):
         sc = draw(scen.toy_binary_scenario(cap=150, max_phases=1, allow_profile=False, sites=["bulk"], allow_shapes=False, undersat=False))
     else:
         sc = draw(_ramp_scenario(cap=150))
+    if draw(st.integers(0, 2)) > 0:
+        T0 = sc["T"][1] if sc["T"][0] == "const" else sc["T"][2][0]
+        total = sum(sc["durations"])
+        prior = []
+        for _ in range(draw(st.integers(1, 2))):
+            kind = draw(st.sampled_from(["const", "array", "func"]))
+            spec = ["const", T0 + draw(st.floats(-30, 30))] if kind == "const" else [kind, [0.0, total / 3600], [T0 + draw(st.floats(-30, 30)), T0 + draw(st.floats(-30, 30))]]
+            prior.append([draw(st.sampled_from(["ctor", "setter"])) if not prior else "setter", spec])
+        sc["T_prior"] = prior
     return sc
 
 
@@ -142,7 +160,7 @@ def clauses():
                rule="generator: toy binary single-phase scenario with a 2-5 break-point schedule (heat/cool/hold segments of 0.2-120 K, as array or function), maxTempChange in {0.1,0.5,1,3,10}, optional maxNonIsothermalDT, both iterators, 1-3 solve calls, cap 300; "
                     "oracle: recorded T = schedule(t) exactly; tabulated equilibrium composition inverted through the analytic solvus lies within maxTempChange of the current temperature; non-trivial: total change > 3 maxTempChange, some step changing T by less than maxTempChange, nucleation rate > 0 somewhere"),
         Clause("entry", _entry_scenario, check_entry, quick=60, thorough=1200, shrink=False,
-               rule="generator: the same scenarios; each run through the constructor parameter object and through the setter, and (for profiles) as array and as equivalent function; pData compared exactly; non-trivial: non-constant schedule with nucleation and > 10 steps"),
+               rule="generator: the same scenarios; each run through the constructor parameter object and through the setter, and (for profiles) as array and as equivalent function; and (2 in 3) set after 1-2 other schedules (constant/array/function, the first possibly through the constructor) had been set on the same model; pData compared exactly, same isothermal/non-isothermal treatment; non-trivial: non-constant schedule or a prior schedule, with nucleation and > 10 steps"),
     ]
     try:
         from . import c13_diff
